@@ -96,6 +96,9 @@ pub fn classify_panic(msg: &str) -> String {
     || msg.contains("BorrowError")
     || msg.contains("verif: self-deadlock")
   {
+    if std::env::var("VERIF_DEBUG_PANIC").is_ok() {
+      eprintln!("panic classified as reentry: {msg}");
+    }
     "reentry".to_string()
   } else {
     format!("panic:{msg}")
